@@ -6,6 +6,7 @@ import Driver.Eth
 import Driver.Stake
 import Driver.Rewards
 import Driver.Olvm
+import Driver.Sig
 
 def main (args : List String) : IO UInt32 := do
   match args with
@@ -17,4 +18,5 @@ def main (args : List String) : IO UInt32 := do
   | ["stake"] => Driver.Stake.main; return 0
   | ["rewards"] => Driver.Rewards.main; return 0
   | ["olvm"] => Driver.Olvm.main; return 0
+  | ["sigm"] => Driver.Sig.main; return 0
   | _ => IO.eprintln "usage: olpdriver <engine>  (engines: kv, shell)"; return 2
